@@ -24,29 +24,31 @@ const (
 )
 
 type sym struct {
-	text  string
-	kind  symKind
-	parts func() ast.Word // kWord / kArith expression / kHere delimiter
-	op    string          // kOp, kIONum, kHere: operator text
-	num   string          // kIONum / numbered here-doc: the number
-	body  string          // kHere: the body the renderer writes (without the delimiter line)
-	delim string          // kHere: delimiter after quote removal
-	strip bool            // kHere: <<-
-	quotedDelim bool      // kHere: some part of the delimiter is quoted
+	text        string
+	kind        symKind
+	parts       func() ast.Word // kWord / kArith expression / kHere delimiter
+	op          string          // kOp, kIONum, kHere: operator text
+	num         string          // kIONum / numbered here-doc: the number
+	body        string          // kHere: the body the renderer writes (without the delimiter line)
+	delim       string          // kHere: delimiter after quote removal
+	strip       bool            // kHere: <<-
+	quotedDelim bool            // kHere: some part of the delimiter is quoted
 }
 
 // ---- word part constructors (positions are zero: skeletons are position free)
 
-func wLit(s string) *ast.Lit                    { return &ast.Lit{Value: s} }
-func wSQ(s string) *ast.Quote                   { return &ast.Quote{Tok: "'", Value: ast.Word{wLit(s)}} }
-func wDQ(parts ...ast.WordPart) *ast.Quote      { return &ast.Quote{Tok: `"`, Value: ast.Word(parts)} }
-func wBS(s string) *ast.Quote                   { return &ast.Quote{Tok: `\`, Value: ast.Word{wLit(s)}} }
-func wPE(name string) *ast.ParamExp             { return &ast.ParamExp{Name: wLit(name)} }
+func wLit(s string) *ast.Lit               { return &ast.Lit{Value: s} }
+func wSQ(s string) *ast.Quote              { return &ast.Quote{Tok: "'", Value: ast.Word{wLit(s)}} }
+func wDQ(parts ...ast.WordPart) *ast.Quote { return &ast.Quote{Tok: `"`, Value: ast.Word(parts)} }
+func wBS(s string) *ast.Quote              { return &ast.Quote{Tok: `\`, Value: ast.Word{wLit(s)}} }
+func wPE(name string) *ast.ParamExp        { return &ast.ParamExp{Name: wLit(name)} }
 func wPEB(name, op string, w ast.Word) *ast.ParamExp {
 	return &ast.ParamExp{Braces: true, Name: wLit(name), Op: op, Word: w}
 }
-func wCS(dollar bool, list ...ast.Command) *ast.CmdSubst { return &ast.CmdSubst{Dollar: dollar, List: list} }
-func wAE(parts ...ast.WordPart) *ast.ArithExp            { return &ast.ArithExp{Expr: ast.Word(parts)} }
+func wCS(dollar bool, list ...ast.Command) *ast.CmdSubst {
+	return &ast.CmdSubst{Dollar: dollar, List: list}
+}
+func wAE(parts ...ast.WordPart) *ast.ArithExp { return &ast.ArithExp{Expr: ast.Word(parts)} }
 func simpleCmd(args ...string) *ast.Cmd {
 	sc := &ast.SimpleCmd{}
 	for _, a := range args {
